@@ -570,6 +570,40 @@ pub fn generate(ctx: &mut Ctx) {
         };
         ctx.case("mutant", &format!("p {}", vx::hex(&m)));
     }
+    // EVERY string up to a length over the bytes the filter lexer dispatches on (see C03 `short:*`)
+    {
+        let alpha: &[u8] = b"a1-.=!<>()\"`@^* \n\\:T>e";
+        let max_len = if ctx.quick() { 3 } else { 4 };
+        let mut buf: Vec<u8> = Vec::new();
+        fn rec(ctx: &mut Ctx, alpha: &[u8], buf: &mut Vec<u8>, left: usize) {
+            ctx.case("short", &format!("p {}", vx::hex(buf)));
+            if left == 0 {
+                return;
+            }
+            for &b in alpha {
+                buf.push(b);
+                rec(ctx, alpha, buf, left - 1);
+                buf.pop();
+            }
+        }
+        rec(ctx, alpha, &mut buf, max_len);
+        // and behind a complete term, where the parser is in another state
+        let mut buf: Vec<u8> = Vec::new();
+        fn rec2(ctx: &mut Ctx, alpha: &[u8], buf: &mut Vec<u8>, left: usize) {
+            let mut t = b"a and b ".to_vec();
+            t.extend_from_slice(buf);
+            ctx.case("short", &format!("p {}", vx::hex(&t)));
+            if left == 0 {
+                return;
+            }
+            for &b in alpha {
+                buf.push(b);
+                rec2(ctx, alpha, buf, left - 1);
+                buf.pop();
+            }
+        }
+        rec2(ctx, alpha, &mut buf, max_len - 1);
+    }
     // token soup over the filter alphabet, random bytes
     let n = ctx.n(2500, 400_000);
     for _ in 0..n {
